@@ -22,7 +22,7 @@ var intervals = []time.Duration{time.Second, 5 * time.Second, time.Minute, time.
 
 func newHist(c *verdict.Ctx, idx int) *hist {
 	h := &hist{c: c, idx: idx, r: c.Rand("hist", idx), phantom: map[string]crypto.PrivKey{},
-		lcaVerdict: map[string]lcaInfo{}, dveMemo: map[string]lcaInfo{}, committed: map[string]int64{}, prev: map[string]string{},
+		lcaVerdict: map[string]lcaInfo{}, wire: map[types.Evidence]*wireMut{}, dveMemo: map[string]lcaInfo{}, committed: map[string]int64{}, prev: map[string]string{},
 		prevItems: map[string]types.Evidence{}, prevHeights: map[string]int64{}}
 	r := h.r
 	nvals := 2 + r.Intn(6)
@@ -138,15 +138,17 @@ func (h *hist) oneOp() {
 		}
 		if b := h.genLCA(); b != nil {
 			h.registerLCA(b.ev, true, "genuine-"+b.kind)
+			h.maybeWire(b.ev, "")
 			h.opAdd(b.ev, "genuine-"+b.kind)
 			h.c.Count("op/add-genuine-lca", 1)
 		}
 	case c < 96:
 		if b := h.genLCA(); b != nil {
 			h.registerLCA(b.ev, true, "genuine-"+b.kind)
-			name := lcaPerturbations[h.r.Intn(len(lcaPerturbations))]
+			name := h.pickLCAPerturbation()
 			if p := h.perturbLCA(b, name); p != nil {
 				h.registerLCA(p, false, name)
+				h.maybeWire(p, name)
 				if h.r.Intn(3) == 0 { // the perturbed twin of a pending genuine item
 					h.opAdd(b.ev, "genuine-"+b.kind)
 				}
